@@ -137,6 +137,27 @@ def small_cases(count, seed, K):
         return _build(rng, K, ["AA", "B"], lambda ch: [(1, ""), (2, "A")], models=(1, 2, 3)[:rng.randint(2, 3)],
                       atoms_per_res=(1, 1))
 
+    @g("multimodel-incongruent")
+    def _():
+        # the models do not list the same chains in the same order, and one of them lacks a residue or a chain
+        t = _build(rng, K, ["AA", "BB", "C"][:rng.randint(2, 3)], lambda ch: [(2, ""), (3, ""), (4, "A")], models=(1, 2),
+                   atoms_per_res=(1, 1))
+        first = [a for a in t if a["model"] == 1]
+        second = [a for a in t if a["model"] == 2]
+        order = []
+        for a in second:
+            if a["chain"] not in order:
+                order.append(a["chain"])
+        order.reverse()
+        second = [a for ch in order for a in second if a["chain"] == ch]
+        how = rng.choice(["order", "residue", "chain"])
+        if how == "residue":
+            ch = order[-1]
+            second = [a for a in second if not (a["chain"] == ch and a["resseq"] == 2)]
+        elif how == "chain" and len(order) > 2:
+            second = [a for a in second if a["chain"] != order[0]]
+        return first + second
+
     @g("interleaved")
     def _():
         return _build(rng, K, ["AA", "B", "C"][:rng.randint(2, 3)], lambda ch: [(1, ""), (2, "")], interleave=True,
@@ -379,6 +400,14 @@ def record(case):
         if case.get("keep"):
             # a row selection made after parsing (the frame keeps whatever the parser attached to its columns)
             col = "chainID" if case["fmt"] == "pdb" else "auth_asym_id"
+            if rng.random() < 0.5:
+                # environment action: the caller asked about the whole table first (answers must not stick to the
+                # frame and travel with its slices)
+                try:
+                    p2.can_write_pdb(df)
+                except Exception:
+                    pass
+                c["asked_parent"] = True
             attrs = dict(df.attrs)
             df = df[df[col].isin(case["keep"])]
             df.attrs.update(attrs)
